@@ -167,3 +167,66 @@ theorem nhood_from_scratch (le : Expect → Expect → Bool) (b : Bandit α) (is
       cases isPredict <;> simp
 
 end Mab
+
+namespace Mab
+variable {α : Type} [DecidableEq α]
+
+/-! ### KNearest: the model's own (stable) choice is a set of k nearest rows -/
+
+theorem sorted_pairs (ds : List Rat) :
+    (ds.zipIdx.mergeSort fun (a b : Rat × Nat) => decide (a.1 ≤ b.1)).Pairwise (fun a b => a.1 ≤ b.1) := by
+  have := List.pairwise_mergeSort (le := fun (a b : Rat × Nat) => decide (a.1 ≤ b.1))
+    (by intro a b c h1 h2; simp only [decide_eq_true_eq] at *; exact le_trans h1 h2)
+    (by intro a b; simp only [Bool.or_eq_true, decide_eq_true_eq]; exact le_total a.1 b.1) ds.zipIdx
+  exact this.imp (by intro a b h; simpa using h)
+
+/-- **C03 (KNearest).**  For `k ≤ n` stored rows the selected set consists of `k` distinct rows, and no
+    selected row is farther from the query than any row left out (ties at the k-th distance may be broken
+    either way: see `knn_override_valid`). -/
+theorem knn_valid (ds : List Rat) (k : Nat) (hk : k ≤ ds.length) :
+    let sel := (stableSortIdx ds).take k
+    sel.length = k ∧ sel.Nodup ∧ (∀ i ∈ sel, i < ds.length) ∧
+    ∀ i ∈ sel, ∀ j, j < ds.length → j ∉ sel → ds.getD i 0 ≤ ds.getD j 0 := by
+  intro sel
+  set L := ds.zipIdx.mergeSort fun (a b : Rat × Nat) => decide (a.1 ≤ b.1) with hL
+  have hperm : L.Perm ds.zipIdx := List.mergeSort_perm _ _
+  have hsorted : L.Pairwise (fun a b => a.1 ≤ b.1) := sorted_pairs ds
+  have hsel : sel = (L.take k).map (·.2) := by simp [sel, stableSortIdx, List.map_take, hL]
+  have hmemL : ∀ p, p ∈ L ↔ ∃ (h : p.2 < ds.length), ds[p.2] = p.1 := by
+    intro p
+    rw [hperm.mem_iff, List.mem_zipIdx_iff_getElem?]
+    constructor
+    · intro h; obtain ⟨hlt, he⟩ := List.getElem?_eq_some_iff.mp h; exact ⟨hlt, he⟩
+    · rintro ⟨hlt, he⟩; rw [List.getElem?_eq_getElem hlt, he]
+  have hidx_nodup : (L.map (·.2)).Nodup := by
+    have : (ds.zipIdx.map (·.2)).Nodup := by
+      rw [List.zipIdx_map_snd]; exact List.nodup_range' (step := 1) (by omega)
+    exact (hperm.map _).nodup_iff.mpr this
+  have hlen : L.length = ds.length := by rw [hperm.length_eq]; simp
+  refine ⟨by rw [hsel]; simp [hlen]; omega, ?_, ?_, ?_⟩
+  · rw [hsel]
+    exact ((List.take_sublist k L).map _).nodup hidx_nodup
+  · intro i hi
+    rw [hsel] at hi
+    obtain ⟨p, hp, rfl⟩ := List.mem_map.mp hi
+    exact ((hmemL p).mp (List.mem_of_mem_take hp)).1
+  · intro i hi j hj hjn
+    rw [hsel] at hi hjn
+    obtain ⟨p, hp, rfl⟩ := List.mem_map.mp hi
+    -- the pair of row j is in L, and not among the first k
+    have hjL : (ds[j], j) ∈ L := (hmemL (ds[j], j)).mpr ⟨hj, rfl⟩
+    have hsplit : L = L.take k ++ L.drop k := (List.take_append_drop k L).symm
+    have hjdrop : (ds[j], j) ∈ L.drop k := by
+      rw [hsplit] at hjL
+      rcases List.mem_append.mp hjL with e | e
+      · exact absurd (List.mem_map.mpr ⟨(ds[j], j), e, rfl⟩) hjn
+      · exact e
+    rw [hsplit] at hsorted
+    have := (List.pairwise_append.mp hsorted).2.2 p hp (ds[j], j) hjdrop
+    obtain ⟨hpl, hpe⟩ := (hmemL p).mp (List.mem_of_mem_take hp)
+    simp only at this
+    rw [List.getD_eq_getElem?_getD, List.getD_eq_getElem?_getD, List.getElem?_eq_getElem hpl, List.getElem?_eq_getElem hj]
+    simp only [Option.getD_some]
+    rw [hpe]; exact this
+
+end Mab
